@@ -9,6 +9,9 @@ NOTES = {
     'C04-b': {'neutralised_by': 'da1974b', 'notes': 'The change removes the UniqueKeyError clause of safe_process so that the error falls into the CastError branch; since fix da1974b that branch raises too, so the property holds with this change applied (no longer a breaking change). Kept as a record; C04 does inject tableschema UniqueKeyError (calibration mutant C04-unique-key-error-swallowed is caught).'},
     'C16r2-a': {'extra_caught_by': ['C01']},
     'C05-a': {'extra_caught_by': ['C07']},
+    'C07r3-a': {'caught_by_override': ['C08'], 'notes': 'Written against C07 (resume); what it breaks is observable only after an interrupted run, which is C08 territory: C08 catches it (recovery clauses), C07 - which never interrupts a run - does not.'},
+    'C19r4-b': {'caught_by_override': ['C04'], 'notes': 'Needs an interruption that is an exception, not a kill (a finally block runs): C19 is quantified over kills and does not see it; C04 artifact-after-failure:descriptor does.'},
+    'C08r4-b': {'extra_caught_by': ['C04']},
 }
 
 
@@ -37,6 +40,8 @@ def main():
             meta['caught_by'] = None
         if 'notes' in n:
             meta['notes'] = n['notes']
+        if n.get('caught_by_override') and not meta.get('caught_by'):
+            meta['caught_by'] = n['caught_by_override']
         if n.get('extra_caught_by'):
             meta['also_caught_by'] = n['extra_caught_by']
         json.dump(meta, open(mp, 'w'), indent=1)
